@@ -173,6 +173,8 @@ def _group(max_secs, spellings):
         "tr_sp": st.sampled_from(list(spellings)), "tr_sep": st.sampled_from(TR_SEPS), "gsep": st.sampled_from(SEPS[:-1]),
         "secs": st.lists(_SEC, min_size=1, max_size=max_secs),
         "tr_join_s": st.sampled_from(TR_JOIN_SDESC), "tr_join_d": st.sampled_from(TR_JOIN_DESCSTR),
+        # a later group may name the same Twp/Rge as an earlier one again (A, B, A)
+        "same_as": st.sampled_from([None, None, None, None, 0, 0, 1]),
     })
 
 
@@ -181,6 +183,10 @@ def _fix(layout):
         out = []
         for gi, g in enumerate(groups):
             g = dict(g)
+            same = g.pop("same_as", None)
+            if same is not None and same < gi:
+                for k in ("twp", "ns", "rge", "ew"):
+                    g[k] = out[same][k]
             # a bare Twp/Rge ('154N-97W') needs an explicit 'R' for range 2, and cannot directly follow a section
             # list (its leading number would grammatically continue that list): DESIGN 3.1
             follows_sec = layout == "desc_STR" or (layout == "TR_desc_S" and gi > 0)
